@@ -1,0 +1,93 @@
+package catalog
+
+import (
+	"fmt"
+
+	"github.com/jsightapi/jsight-schema-core/notations/jschema"
+	"github.com/jsightapi/jsight-schema-core/notations/jschema/ischema"
+
+	"github.com/jsightapi/jsight-api-core/jerr"
+)
+
+// CheckShortcutKeys refuses a schema in which the key of a property is given by
+// a user type whose own schema is a union that leads back to that type, like
+// { @a: 1 } with the TYPE @a "@a | @b". The schema library looks for the type of
+// such a key by following the union, without end: the process would die of a
+// stack overflow.
+//
+// The schema is made to read its text here. A fault in the text is reported
+// later, when the schema is compiled.
+func CheckShortcutKeys(s *jschema.JSchema, userTypes *UserSchemas) error {
+	if s == nil {
+		return nil
+	}
+	if _, err := s.UsedUserTypes(); err != nil || s.Inner == nil {
+		return nil
+	}
+
+	var found string
+	var walk func(n ischema.Node)
+	walk = func(n ischema.Node) {
+		if found != "" || n == nil {
+			return
+		}
+		if o, ok := n.(*ischema.ObjectNode); ok {
+			for _, k := range o.Keys().Data {
+				if k.IsShortcut && unionLeadsBackToItself(k.Key, userTypes) {
+					found = k.Key
+					return
+				}
+			}
+		}
+		if b, ok := n.(ischema.BranchNode); ok {
+			for _, c := range b.Children() {
+				walk(c)
+			}
+		}
+	}
+	walk(s.Inner.RootNode())
+
+	if found != "" {
+		return fmt.Errorf("%s %q", jerr.UnionRefersToItself, found)
+	}
+	return nil
+}
+
+// unionLeadsBackToItself tells if the schema of the user type is a union of
+// types (or a reference to one) from which the same type is reached again
+// through unions and references only.
+func unionLeadsBackToItself(name string, userTypes *UserSchemas) bool {
+	alternatives := func(n string) []string {
+		s, ok := userTypes.GetValue(n).(*jschema.JSchema)
+		if !ok || s == nil {
+			return nil
+		}
+		if _, err := s.UsedUserTypes(); err != nil || s.Inner == nil {
+			return nil
+		}
+		m, ok := s.Inner.RootNode().(*ischema.MixedValueNode)
+		if !ok {
+			return nil
+		}
+		return m.GetTypes()
+	}
+
+	visited := map[string]struct{}{}
+	var reaches func(n string) bool
+	reaches = func(n string) bool {
+		for _, a := range alternatives(n) {
+			if a == name {
+				return true
+			}
+			if _, ok := visited[a]; ok {
+				continue
+			}
+			visited[a] = struct{}{}
+			if reaches(a) {
+				return true
+			}
+		}
+		return false
+	}
+	return reaches(name)
+}
